@@ -33,14 +33,18 @@ def spawn(case):
     env['SOURCE_DATE_EPOCH'] = EPOCH
     env['VERIF_REPO'] = repo
     env.pop('PYTHONSTARTUP', None)
-    p = subprocess.run([PY, os.path.abspath(__file__)], input=json.dumps(case['job']).encode(), env=env,
-                       stdout=subprocess.PIPE, stderr=subprocess.PIPE, timeout=case.get('timeout', 240))
-    lines = [l for l in p.stdout.decode('utf-8', 'replace').splitlines() if l.startswith('C19JOB ')]
-    if p.returncode != 0 or not lines:
-        return {'crashed': True, 'rc': p.returncode, 'stderr': p.stderr.decode('utf-8', 'replace')[-3000:]}
-    out = json.loads(lines[-1][7:])
-    out['hashseed'] = case['hashseed']
-    return out
+    crashes = []
+    for attempt in range(2):     # a native crash of the interpreter (seen once, not reproducible) is retried once
+        p = subprocess.run([PY, os.path.abspath(__file__)], input=json.dumps(case['job']).encode(), env=env,
+                           stdout=subprocess.PIPE, stderr=subprocess.PIPE, timeout=case.get('timeout', 240))
+        lines = [l for l in p.stdout.decode('utf-8', 'replace').splitlines() if l.startswith('C19JOB ')]
+        if p.returncode == 0 and lines:
+            out = json.loads(lines[-1][7:])
+            out['hashseed'] = case['hashseed']
+            out['crashes_before'] = crashes
+            return out
+        crashes.append({'rc': p.returncode, 'stderr': p.stderr.decode('utf-8', 'replace')[-1500:]})
+    return {'crashed': True, 'attempts': crashes}
 
 
 # =====================================================================================================================
